@@ -27,10 +27,12 @@ RULE = ("BFS over histories of {resource writes 1 byte / the rest, resource fini
         "non-trivial = distinct canonical states in which a stream was blocked on flow control (queued data the window does not admit, a paused "
         "producer, or a window <= 0)")
 BOUNDS = {
-    "quick": "w in {1,2,5}; c in {65535, 1}; 1 stream: all 6 body sizes x {direct, producer}, depth 7; 2 streams: (w+1|2w) x (1|w) bodies, "
-             "modes dd/pd, both service orders, depth 6; <= 2 WINDOW_UPDATEs and <= 2 SETTINGS per history",
-    "thorough": "w in {1,2,5}; c in {65535, 1, w}; 1 stream: depth 9; 2 streams: bodies {1,w,w+1,2w}^2 (a >= b), modes dd/dp/pd/pp, both service "
-                "orders, depth 7; <= 3 WINDOW_UPDATEs and <= 2 SETTINGS per history",
+    "quick": "w in {1,2,5}; connection window c in {65535, 1}; 1 stream: all body sizes {0,1,w-1,w,w+1,2w} x {direct, producer}, BFS depth 6 "
+             "(writes of 1 byte or the rest); 2 streams: bodies (w+1|2w) x (1|w), modes direct/direct and producer/direct, both service orders, "
+             "depth 4 (whole-body writes); <= 2 client frames (WINDOW_UPDATE/SETTINGS) per history; plus the completion run (<= 80 loop "
+             "iterations per phase) from every state",
+    "thorough": "w in {1,2,5}; c in {65535, 1, w}; 1 stream: depth 8, <= 3 client frames (<= 2 SETTINGS); 2 streams: bodies (w+1|2w) x (1|w|w+1), "
+                "5 mode/service-order variants (dd both orders, pd, dp, pp), depth 5, <= 3 client frames; completion run from every state",
 }
 ASSUMPTIONS = [
     "trusted base: h2's client-side window accounting, the 9-byte frame header parser and window ledger in this file, and the round-robin "
@@ -118,6 +120,14 @@ def _T():
         _mods.update(h2=h2, Clock=IterClock, http=http, _http2=_http2, HReq=HReq, Wire=Wire,
                      IWS=h2.settings.SettingCodes.INITIAL_WINDOW_SIZE)
     return _mods
+
+
+class PreludeFailed(Exception):
+    """the fixed opening exchange (handshake, window-consuming prelude stream, request HEADERS) already went wrong"""
+
+    def __init__(self, bad, msg):
+        Exception.__init__(self, msg)
+        self.bad = list(bad)
 
 
 class Producer:
@@ -214,7 +224,8 @@ class St:
             self.run_quiet(40)
             self.deliver()
             if self.ref_conn != c or self.bad or self.loop_exc:
-                raise RuntimeError("prelude failed: conn window %r, want %r, bad=%r" % (self.ref_conn, c, self.bad))
+                raise PreludeFailed(self.bad + ([("H2Connection:send-loop-died:%s:in-prelude" % self.loop_exc, "")] if self.loop_exc else []),
+                                    "prelude failed: conn window %r, want %r, bad=%r" % (self.ref_conn, c, self.bad))
             nxt += 2
         self.client_set(w)
         self.deliver()
@@ -232,7 +243,7 @@ class St:
         self.n_wu = self.n_set = 0
         self.flags.clear()
         if self.bad or self.dead or self.loop_exc:
-            raise RuntimeError("setup failed: %r" % (self.bad,))
+            raise PreludeFailed(self.bad, "setup failed: %r loop_exc=%r" % (self.bad, self.loop_exc))
         _cur[0] = None
 
     def logged_failure(self, f):
@@ -320,7 +331,7 @@ class St:
     def _end(self, sid):
         self.srv_ended.add(sid)
         r = self.by_sid.get(sid)
-        if r is not None and (bytes(r.sent) != r.body or not r.finished):
+        if r is not None and bytes(r.sent) != r.body:
             self.bad.append(("H2Connection:END_STREAM-before-body-complete",
                              "stream %d ended after %r of %r (finished=%r)" % (sid, bytes(r.sent), r.body, r.finished)))
 
@@ -600,10 +611,12 @@ def _closure(st, mode):
             sig = _loop_sig(st)
         elif mode == "set":
             sig = "H2Connection:stream-blocked-on-flow-control-not-resumed-after-SETTINGS-window-increase"
-        elif unsent and r.wrote_closed:
-            sig = "H2Connection:data-written-at-closed-window-not-sent-after-WINDOW_UPDATE"
         elif unsent:
-            sig = "H2Connection:queued-data-not-sent-after-WINDOW_UPDATE"
+            # which half of the hand-over failed: the priority stand-in (ours) knows whether the stream was unblocked
+            act = getattr(st.srv.priority, "_active", {}).get(r.sid)
+            sig = "H2Connection:queued-data-not-sent-after-WINDOW_UPDATE:%s:%s" % (
+                "written-at-closed-window" if r.wrote_closed else "written-at-open-window",
+                {True: "stream-unblocked-but-send-loop-idle", False: "stream-left-blocked-in-priority-tree"}.get(act, "?"))
         else:
             sig = "H2Stream:paused-producer-not-resumed-after-WINDOW_UPDATE"
         out.append((sig, "stream %d (%s, body %d): window opened by %s (ledger: stream %d, connection %d) but %s; "
@@ -723,14 +736,13 @@ def configs(tier):
             if tier == "quick":
                 pairs = [(a, b) for a in sorted({w + 1, 2 * w}) for b in sorted({1, w})]
                 modes = ["dd", "pd"]
+                variants = [(mm, pick) for mm in modes for pick in ("first", "last")]
             else:
-                bs = sorted({1, w, w + 1, 2 * w})
-                pairs = [(a, b) for a in bs for b in bs if a >= b]
-                modes = ["dd", "dp", "pd", "pp"]
+                pairs = [(a, b) for a in sorted({w + 1, 2 * w}) for b in sorted({1, w, w + 1})]
+                variants = [("dd", "first"), ("dd", "last"), ("pd", "first"), ("dp", "last"), ("pp", "first")]
             for a, b in pairs:
-                for mm in modes:
-                    for pick in ("first", "last"):
-                        out.append((2, w, c, [[a, mm[0]], [b, mm[1]]], pick))
+                for mm, pick in variants:
+                    out.append((2, w, c, [[a, mm[0]], [b, mm[1]]], pick))
     return out
 
 
@@ -741,7 +753,7 @@ def shards(tier, seed):
 def params(tier, nstreams):
     if tier == "quick":
         return {"depth": 6 if nstreams == 1 else 4, "wu_max": 2, "set_max": 2, "cf_max": 2, "whole": nstreams == 2}
-    return {"depth": 8 if nstreams == 1 else 6, "wu_max": 3, "set_max": 2, "cf_max": 3, "whole": nstreams == 2}
+    return {"depth": 8 if nstreams == 1 else 5, "wu_max": 3, "set_max": 2, "cf_max": 3, "whole": nstreams == 2}
 
 
 def run_shard(shard, tier, seed):
@@ -795,6 +807,14 @@ def run_shard(shard, tier, seed):
                 judge(build(cfg, hist), hist, "conn")
         judge(st, hist, "wu")      # destroys st; bfs rebuilds before it expands
 
+    try:
+        St(cfg)
+    except PreludeFailed as e:
+        if not e.bad:
+            raise
+        for sig, detail in e.bad:       # twisted broke the opening exchange: a violation, not a harness error
+            stats.violation(sig, "%s (in the prelude: %s)" % (detail, e), {"cfg": cfg, "history": []})
+        return stats
     res = bfs(lambda: St(cfg), apply, en, canon, invariant, p["depth"], max_violations=10 ** 6, on_state=on_state)
     on_state(St(cfg), [])
     stats.add_bfs(res, {"cfg": cfg})
@@ -805,7 +825,10 @@ def run_shard(shard, tier, seed):
 def replay(w):
     cfg = w["cfg"]
     hist = [tuple(e) for e in w["history"]]
-    st = build(cfg, hist)
+    try:
+        st = build(cfg, hist)
+    except PreludeFailed as e:
+        return list(e.bad)
     out = list(invariant(st, hist))
     if w.get("closure"):
         out.extend(closure(build(cfg, hist), w["closure"]))
